@@ -213,7 +213,7 @@ func (w *Writer) buildArrayNode(v []any) (n *node) {
 		members: make([]*node, 0, len(v)),
 		size:    2, // []
 		kind:    arrayNode,
-		skip:    (w.OmitNil || w.OmitEmpty) && len(v) == 0,
+		skip:    w.OmitEmpty && len(v) == 0,
 	}
 	for i, m := range v {
 		mn := w.build(m)
@@ -237,7 +237,7 @@ func (w *Writer) buildGenArrayNode(v gen.Array) (n *node) {
 		members: make([]*node, 0, len(v)),
 		size:    2, // []
 		kind:    arrayNode,
-		skip:    (w.OmitNil || w.OmitEmpty) && len(v) == 0,
+		skip:    w.OmitEmpty && len(v) == 0,
 	}
 	for i, m := range v {
 		mn := w.build(m)
@@ -296,7 +296,7 @@ func (w *Writer) buildMapNode(v map[string]any) (n *node) {
 			mn.key = append(append([]byte(w.KeyColor), mn.key...), w.NoColor...)
 		}
 	}
-	n.skip = (w.OmitNil || w.OmitEmpty) && len(n.members) == 0
+	n.skip = w.OmitEmpty && len(v) == 0
 
 	return
 }
@@ -341,7 +341,7 @@ func (w *Writer) buildGenMapNode(v gen.Object) (n *node) {
 			mn.key = append(append([]byte(w.KeyColor), mn.key...), w.NoColor...)
 		}
 	}
-	n.skip = (w.OmitNil || w.OmitEmpty) && len(n.members) == 0
+	n.skip = w.OmitEmpty && len(v) == 0
 
 	return
 }
